@@ -71,7 +71,7 @@ func init() {
 					continue
 				}
 				t := fmt.Sprintf("Unique body of page %d in doc %d", p+1, di)
-				pages = append(pages, []pdfLine{{72, 700, 12, t}, {72, 650, 12, fmt.Sprintf("second line p%d", p+1)}})
+				pages = append(pages, []pdfLine{{72, 700, 12, t, 0}, {72, 650, 12, fmt.Sprintf("second line p%d", p+1), 0}})
 				texts = append(texts, t)
 			}
 			path := tmpFile(r, ".pdf", mkPDFLines(pages, 612, 792))
@@ -255,7 +255,7 @@ func init() {
 			os.Remove(path)
 		}
 		// ---- life cycle with descriptor counting
-		pdfPath := tmpFile(r, ".pdf", mkPDFLines([][]pdfLine{{{72, 700, 12, "one"}}, {{72, 700, 12, "two"}}, {{72, 700, 12, "three"}}}, 612, 792))
+		pdfPath := tmpFile(r, ".pdf", mkPDFLines([][]pdfLine{{{72, 700, 12, "one", 0}}, {{72, 700, 12, "two", 0}}, {{72, 700, 12, "three", 0}}}, 612, 792))
 		docxPath := tmpFile(r, ".docx", writeZip(mkDOCXSimple([]string{"para one", "para two"})))
 		badPath := tmpFile(r, ".pdf", writeZip(mkDOCXSimple([]string{"not a pdf"}))) // DOCX bytes named .pdf: every open fails
 		// every terminal operation, successful or failed, releases the handle it opened
